@@ -15,7 +15,7 @@ Section C08.
   Variable deqb : D -> D -> bool.
   Variable f_eq_Z : F -> Z -> bool.
   Variable show_float : F -> str.
-  Variable parse_float : str -> option F.
+  Variable parse_float : bool -> str -> option F.
   Variable show_time_iso show_time_str : T -> str.
   Variable parse_time_np parse_time_fmt parse_time_pd : str -> option T.
   Variable parse_delta : str -> option D.
@@ -47,12 +47,12 @@ Section C08.
   Proof. intros s hive. split; reflexivity. Qed.
 
   (* floats / timestamps: reduced to the external conversions (trusted base) *)
-  Theorem C08_float_time_roundtrip_conditional : forall hive f t ns,
-    (parse_float (show_float f) = Some f -> parse_with_meta KFloat (show hive (VFloat f)) = Ok (VFloat f)) /\
+  Theorem C08_float_time_roundtrip_conditional : forall hive f t ns single,
+    (parse_float single (show_float f) = Some f -> parse_with_meta (KFloat single) (show hive (VFloat f)) = Ok (VFloat f)) /\
     (parse_time_np (show_time_iso t) = Some t -> parse_with_meta (KTime ns) (show true (VTime t)) = Ok (VTime t)).
   Proof.
-    intros hive f t ns. split.
-    - exact (roundtrip_float F T D show_float parse_float show_time_iso show_time_str parse_time_np parse_time_fmt f hive).
+    intros hive f t ns single. split.
+    - exact (roundtrip_float F T D show_float parse_float show_time_iso show_time_str parse_time_np parse_time_fmt f hive single).
     - exact (roundtrip_time F T D show_float parse_float show_time_iso show_time_str parse_time_np parse_time_fmt t ns).
   Qed.
 
